@@ -1,6 +1,6 @@
 use crate::*;
 use nalgebra::{DVector, SVector};
-use numpy::{PyArray, PyReadonlyArrayDyn, PyReadwriteArrayDyn};
+use numpy::{PyArray, PyReadonlyArrayDyn};
 use pyo3::exceptions::PyTypeError;
 use pyo3::prelude::*;
 
